@@ -41,13 +41,15 @@ def main():
         args = [unesc(a) for a in it["args"]]
         answers = [unesc(a) for a in it.get("stdin", [])]
         argv = [unesc(a) for a in it.get("argv", it["args"])]          # what is typed; args is its normalised form
+        closed = it.get("close", "")            # the calculator started with its standard output / error descriptor closed (">&-", "2>&-")
         p = subprocess.Popen([sys.executable, "-B"] + it.get("pyflags", []) + ["-m", "cvss.cvss_calculator"] + argv, stdin=subprocess.PIPE,
-                             stdout=subprocess.PIPE, stderr=subprocess.PIPE, env=env)
+                             stdout=subprocess.PIPE, stderr=subprocess.PIPE, env=env,
+                             preexec_fn=(lambda: os.close({"stdout": 1, "stderr": 2}[closed])) if closed else None)
         data = "".join(a + "\n" for a in answers).encode("utf-8")
         out, err = p.communicate(data)
         out = out.decode("utf-8", "replace")
         err = err.decode("utf-8", "replace")
-        ev = {"args": it["args"], "argv": it.get("argv", it["args"]), "stdin": it.get("stdin", []), "rc": p.returncode,
+        ev = {"closed": closed, "args": it["args"], "argv": it.get("argv", it["args"]), "stdin": it.get("stdin", []), "rc": p.returncode,
               "stdout": [esc(l.rstrip("\r")) for l in out.split("\n")], "stdout_text": esc(out), "stderr": esc(err)[:400],
               "traceback": "Traceback" in err}
         # the JSON document found in stdout, if any
